@@ -42,6 +42,13 @@ func corpusFiles(prop string) []string {
 }
 
 func main() {
+	// variables of the build host that tools of the target distributions read - none of them is a setting of nfpm
+	for k, v := range map[string]string{"PACKAGER": "Env Packager <env@example.com>", "DEBEMAIL": "env@example.com", "DEBFULLNAME": "Env Fullname",
+		"EMAIL": "env-mail@example.com", "NAME": "Env Name", "LOGNAME": "envlogin", "USER": "envuser", "HOSTNAME": "env-host.example"} {
+		if os.Getenv("VERIF_KEEP_ENV") == "" {
+			os.Setenv(k, v)
+		}
+	}
 	if len(os.Args) < 2 {
 		fmt.Fprintln(os.Stderr, "usage: harness <property> [flags]")
 		os.Exit(2)
